@@ -112,7 +112,7 @@ def prop(families, rule, trigger_ops=None, level="model_checking"):
                 exhaustive=dict(quick=False, thorough=False))
 
 
-EXHAUSTIVE = {"C05", "C16", "C17"}
+EXHAUSTIVE = {"C16", "C17"}
 
 
 GEN = ("behaviours are generated by TLC from the family's bounded configuration (exhaustively to the stated depth, "
